@@ -15,10 +15,16 @@ EXPLANATION = (
     "general, allocation size and panics inside dependencies are not decided.")
 CRATES = ['ruma_common', 'ruma_identifiers_validation', 'ruma_signatures', 'ruma_state_res', 'ruma_html', 'ruma_events', 'ruma_federation_api']
 # Reviewed recursion: each is a walk over a tree produced from the input; depth = nesting depth of that input.
-RECURSION_OK = {
-    "ruma_common::push::condition::flattened_json::FlattenedJson::flatten_value": "JSON nesting, bounded by serde_json's recursion limit (128) on the parser that produced the Raw value",
-    "ruma_html::sanitizer_config::clean::<impl ruma_html::sanitizer_config::SanitizerConfig>::clean_node": "DOM depth; does not descend below max_depth (100) when sanitizing",
-    "ruma_html::html::NodeRef::serialize": "DOM depth (linear in input nesting)",
+RECURSION_OK = {   # anchor function -> (module every member of its component must belong to, reviewed depth bound)
+    "ruma_common::push::condition::flattened_json::FlattenedJson::flatten_value":
+        ("ruma_common::push::condition::flattened_json", "JSON nesting, bounded by serde_json's recursion limit (128) on the parser that produced the Raw value"),
+    "ruma_html::sanitizer_config::clean::<impl ruma_html::sanitizer_config::SanitizerConfig>::clean_node":
+        ("ruma_html::sanitizer_config::clean", "DOM depth; does not descend below max_depth (100) when sanitizing"),
+    "ruma_html::html::NodeRef::serialize": ("ruma_html::html", "DOM depth (linear in input nesting)"),
+    "<ruma_common::canonical_json::value::CanonicalJsonValue as core::convert::TryFrom<serde_json::value::Value>>::try_from":
+        ("ruma_common::canonical_json", "nesting depth of a serde_json::Value: 128 at most when it was parsed by serde_json, otherwise built by the caller"),
+    "ruma_common::canonical_json::value::<impl core::convert::From<ruma_common::canonical_json::value::CanonicalJsonValue> for serde_json::value::Value>::from":
+        ("ruma_common::canonical_json", "nesting depth of a CanonicalJsonValue, itself produced by the conversion above"),
 }
 
 
@@ -32,12 +38,20 @@ def run(ctx):
     edges = PC.call_graph(w)
     sccs = PC.recursive_sccs(edges)
     for comp in sccs:
+        anchors = [f for f in comp if f in RECURSION_OK]
+        if not anchors:
+            fn = w.lookup(comp[0])
+            ctx.violation("C17.recursion", f"C17.recursion:{sorted(comp)[0]}", w.where(fn) if fn else "",
+                          f"recursive component {sorted(comp)[:4]} has no reviewed depth bound (one stack frame per unit of input)")
+            continue
+        module, reason = RECURSION_OK[anchors[0]]
+        ctx.ok("C17.recursion", f"C17.recursion:{anchors[0]}", w.where(w.fn(anchors[0])), f"{reason} ({len(comp)} functions in the component)")
         for f in comp:
-            if f in RECURSION_OK:
-                ctx.ok("C17.recursion", f"C17.recursion:{f}", w.where(w.fn(f)), RECURSION_OK[f])
-            else:
+            # a reviewed walk may be split into helpers of the same module; anything else joining the cycle is new recursion
+            if module not in f:
                 fn = w.lookup(f)
-                ctx.violation("C17.recursion", f"C17.recursion:{f}", w.where(fn) if fn else "", f"recursive component {comp[:4]} has no reviewed depth bound")
+                ctx.violation("C17.recursion", f"C17.recursion:{f}", w.where(fn) if fn else "",
+                              f"{f} joined the recursive component of {anchors[0]} from outside {module}")
     ctx.count("call_graph_nodes", len(edges))
     ctx.floor("call graph nodes", len(edges), 9000)
 
